@@ -116,10 +116,9 @@ Section Sim.
       apply orb_true_iff in Hops. rewrite !memb_In in Hops.
       specialize (Hk o Hops). unfold dmem in Hk. unfold pat_get.
       destruct (dget d o) as [q|] eqn:E; [|discriminate]. apply Hd; exact E. }
-    unfold arity_okb in Har. destruct (pattern_arity (gtyp g)) as [k|] eqn:Ek; [|discriminate].
-    apply Nat.eqb_eq in Har. subst k.
+    unfold arity_okb in Har.
     destruct (eval_pattern_den n (gtyp g) (map (pat_get d) (gops g))) as (r & Hr & Hlt & Hbits).
-    - rewrite map_length; exact Ek.
+    - rewrite map_length; exact Har.
     - apply Forall_map. eapply Forall_impl; [|exact Hgood]. intros o [Ho _]; exact Ho.
     - rewrite He in Hr; injection Hr as <-.
       split; [exact Hlt|]. intros i Hi.
@@ -134,10 +133,9 @@ Section Sim.
     exists p, eval_pattern (max_pattern n) (gtyp g) (map (pat_get d) (gops g)) = Ok p.
   Proof.
     intros [Hd Hk] Har Hops.
-    unfold arity_okb in Har. destruct (pattern_arity (gtyp g)) as [k|] eqn:Ek; [|discriminate].
-    apply Nat.eqb_eq in Har. subst k.
+    unfold arity_okb in Har.
     destruct (eval_pattern_den n (gtyp g) (map (pat_get d) (gops g))) as (r & Hr & _).
-    - rewrite map_length; exact Ek.
+    - rewrite map_length; exact Har.
     - apply Forall_map. apply Forall_forall; intros o Ho.
       rewrite forallb_forall in Hops. specialize (Hops o Ho).
       apply orb_true_iff in Hops. rewrite !memb_In in Hops.
